@@ -27,7 +27,9 @@ type linExpr struct {
 	ok   bool
 }
 
-func newLin() linExpr { return linExpr{coef: map[string]int64{}, atom: map[string]ssa.Value{}, ok: true} }
+func newLin() linExpr {
+	return linExpr{coef: map[string]int64{}, atom: map[string]ssa.Value{}, ok: true}
+}
 
 func (a linExpr) add(b linExpr, k int64) linExpr {
 	r := newLin()
